@@ -158,6 +158,8 @@ def dropPooled (ls : Array Line) : List Line :=
   (List.range n).filterMap (fun i => if keep.getD i true then some ls[i]! else none)
 
 def runCase (c : Case) : String :=
+  -- the log buffer filled up while some thread was still polling: no verdict for this run
+  if c.status == "overflow" then s!"case {c.id} inconclusive log-buffer-full" else
   let mons := c.lines.filter (·.startsWith "monitor ")
   let evl := c.lines.filter (fun l => !(l.startsWith "monitor "))
   let parsed := evl.map parseLine
